@@ -109,6 +109,8 @@ int sim_tid(void);
 uint64_t sim_last_load_step(void);
 void sim_sleep_ns(uint64_t ns);
 double dispenso_verif_sim_now(void);
+// CLOCK_REALTIME (system_clock) = simulated monotonic time + this constant
+uint64_t sim_realtime_offset_ns(void);
 
 // harness-level blocking without any participation in dispenso (latches for oracles)
 void sim_event_wait(const void* key);
